@@ -113,6 +113,21 @@ Definition invb (s : state) : bool :=
   && params_ok (prm s)
   && has (fst (p_fee (prm s))) (tokens s).
 
+(** the one parameter-dependent clause of [invb]: the issue-fee denom is a registered symbol.  It holds as long
+    as the parameters are not changed by a MsgUpdateParams naming an unregistered symbol (the code as it was
+    accepted that; the repaired msgServer.UpdateParams refuses it: clause 5 of the check watches it) *)
+Definition fee_registered (s : state) : bool := has (fst (p_fee (prm s))) (tokens s).
+Definition invb_core (s : state) : bool :=
+  sortedb lt1 (tokens s) && forallb key_ok (tokens s)
+  && nodupb (map t_mu (map snd (tokens s)))
+  && forallb token_ok (map snd (tokens s))
+  && eqb (mu_idx s) (mu_index_of (map snd (tokens s)))
+  && eqb (own_idx s) (own_index_of (map snd (tokens s)))
+  && sortedb lt1 (burned s) && forallb coin_ok (burned s)
+  && params_ok (prm s).
+Lemma invb_split s : invb s = invb_core s && fee_registered s.
+Proof. reflexivity. Qed.
+
 (** ** Correspondence and the C12 predicate *)
 Record run := mkRun {
   r_sA : state; r_gA : genesis; r_val : bool; r_imp : Z; r_sB : option state; r_gB : option genesis;
@@ -125,7 +140,7 @@ Record case := mkCase { c_runs : list run }.
 Definition fixed_v : bool := false.
 
 Definition corr_run (r : run) : bool :=
-  invb (r_sA r)
+  invb_core (r_sA r)
   && eqb (export (r_sA r)) (r_gA r)
   && eqb (validate fixed_v (r_gA r)) (r_val r)
   && match import fixed_v (r_gA r) with
@@ -138,10 +153,13 @@ Definition corr_run (r : run) : bool :=
      end.
 
 (** clause codes: 1 export does not validate; 2 import panics; 3 second export differs;
-    4 a token (by symbol, by min unit, by owner), a burned total or the parameters read differently on B *)
+    4 a token (by symbol, by min unit, by owner), a burned total or the parameters read differently on B;
+    5 import panics and the issue-fee denom of A's parameters is not a registered symbol (only possible after
+    a MsgUpdateParams naming one) — reported before 2, so that 2 stands for every OTHER import panic *)
 Definition prop_run (r : run) : Z :=
   first_code
     [ (1, r_val r);
+      (5, (r_imp r =? 0) || fee_registered (r_sA r));
       (2, r_imp r =? 0);
       (3, match r_gB r with Some g => eqb g (r_gA r) | None => true end);
       (4, match r_sB r with Some b => eqb (queries b) (queries (r_sA r)) | None => true end) ].
